@@ -301,8 +301,11 @@ func (e *Encoder) writeValue(val reflect.Value, tagType byte) error {
 				var tagName string
 				if tn, ok := r.Key().Interface().(fmt.Stringer); ok {
 					tagName = tn.String()
-				} else {
+				} else if r.Key().Kind() == reflect.String {
 					tagName = r.Key().String()
+				} else {
+					// reflect.Value.String() of a non-string is "<T Value>": every entry would get that name
+					return fmt.Errorf("unsupported map key type %v: only strings and fmt.Stringers name a tag", r.Key().Type())
 				}
 				tagType, tagValue := getTagType(r.Value())
 				if tagType == TagEnd {
